@@ -67,6 +67,7 @@ Notation when_clause_s := (Spec.when_clause_s re lit_ok).
 Notation block_s := Spec.block_s.
 Notation when_block_s := (Spec.when_block_s re lit_ok).
 Notation named_s := Spec.named_s.
+Notation type_block_s := (Spec.type_block_s re lit_ok).
 Notation rule_clause_s := (Spec.rule_clause_s re lit_ok).
 Notation rule_eval_s := (Spec.rule_eval_s re lit_ok prog doc).
 Notation rule_status_s := (Spec.rule_status_s re lit_ok prog doc).
@@ -1348,6 +1349,37 @@ Proof.
   - destruct (assoc name b); [|eapply Kp; exact H]. apply ret_inv in H as (_ & _ & ->). reflexivity.
 Qed.
 
+Theorem type_block_refines env v tn conds b q : simC eq env v (type_block_body' re prog r tn conds b q) (type_block_s sr env conds b q).
+Proof.
+  unfold type_block_body', Spec.type_block_s. apply simC_node.
+  eapply (simC_bind (fun (a b : bool) => a = b)).
+  - destruct conds as [c|]; [|kk]. apply keeps_bind; [exact ss_trans|apply keeps_node, ks_conds'|]. intros st. kk.
+  - destruct conds as [c|].
+    + eapply simC_bind; [apply keeps_node, ks_conds'| |].
+      * apply simC_node. apply simC_cnf; intros l w _ _; [apply ks_when_clause'|apply when_clause_refines].
+      * intros st st' <-. apply simS_C, simS_ret. reflexivity.
+    + apply simS_C, simS_ret. reflexivity.
+  - intros go go' <-. destruct go; cbn [negb]; [|apply simS_C, simS_ret; reflexivity].
+    intros HG Hcur s Hs Hv.
+    refine (simC_bind RQ eq env v _ _ _ _ (ks_ctxq _) (ctx_query_refines env v _) _ HG Hcur s Hs Hv).
+    intros values vals [Hrel HGv]. apply simS_C.
+    destruct Hrel as [|a0 b0 values vals Hab Hrel]; [apply simS_ret; reflexivity|].
+    set (values0 := a0 :: values) in *. set (vals0 := b0 :: vals) in *.
+    assert (Hrel0 : Forall2 rel_q values0 vals0) by (constructor; assumption).
+    change (match vals0 with [] => SOk SKIP | _ :: _ => ?X end) with X.
+    change (match values0 with [] => _ | _ :: _ => ?X end) with X.
+    eapply simS_bind.
+    + apply keeps_mapM; [exact ss_refl|exact ss_trans|]. intros x0. destruct x0; kk.
+    + refine (simS_mapM (fun a b => rel_q a b /\ Gq a) eq env _ _ values0 vals0 _ _ _).
+      * clear -Hrel0 HGv. induction Hrel0; constructor; inversion HGv; subst; auto.
+      * intros x0 _. destruct x0; kk.
+      * intros x0 y _ [Hxy Hgx]. destruct x0 as [rv|rv|u], y as [[|] rv'|]; cbn in Hxy; try contradiction; subst.
+        -- apply simS_node. apply gblock_in_value. exact Hgx.
+        -- apply simS_node. apply gblock_in_value. exact Hgx.
+        -- apply simS_fail.
+    + intros sts sts' Hs'. apply Forall2_eq in Hs'. subst. apply simS_ret. reflexivity.
+Qed.
+
 Theorem rule_body_refines x : simC eq file_env doc (rule_body' re prog r x) (rule_eval_s sr x).
 Proof.
   unfold rule_body', Spec.rule_eval_s. apply simC_node.
@@ -1366,7 +1398,7 @@ Proof.
     + intros l c _ _. destruct c as [g|conds b|tn conds b q]; cbn [rule_clause_body' Spec.rule_clause_s].
       * apply Hcl.
       * apply when_block_refines.
-      * apply simC_SOut.
+      * apply type_block_refines.
     + unfold shape. cbn. apply re_block; assumption.
 Qed.
 
